@@ -6,12 +6,13 @@
    controller): after the driver updates of a step every human driver's availability is the schedule's verdict at the time the
    step started, and no other operation of the step (instructions, vehicle updates, admission, cancellation, prices, tick) changes
    a driver state (C20_only_driver_updates_change_drivers, from the macro frame theorem) — so during every step of every run a
-   human-driven vehicle is available exactly when the step's start time lies in its shift.  PARTIAL: "the dispatcher never assigns to an off-shift driver" is decided by the dispatcher
-   engine (harness) on the real Dispatcher. *)
+   human-driven vehicle is available exactly when the step's start time lies in its shift.  The built-in dispatcher never assigns to an off-shift driver: its vehicle filter, regenerated from the source, rejects every
+   vehicle whose driver is unavailable (C20_dispatcher_never_offers_off_shift_driver); that the solver's pairs come from the
+   filtered lists is checked by the dispatcher engine (harness) on the real Dispatcher. *)
 From Hive.Base Require Import Prelude.
 From Hive.Model Require Import Types KernelBase SimOps States Step.
 From Hive.Gen Require Import Kernels.
-From Hive.Proofs Require Import Shift VehFrame Macro Clock ShiftInv.
+From Hive.Proofs Require Import Shift VehFrame Macro Clock ShiftInv Eligible.
 Local Open Scope Z_scope.
 
 Theorem C20_in_shift_meaning : forall a b x,
@@ -43,6 +44,12 @@ Theorem C20_run_follows_schedule : forall env, (forall g, e_fence env g = true) 
   vkeys s -> scheds_resolve env s -> Forall input_ok (pre ++ [(rt, prices, rows, is)]) ->
   shift_ok env (run env (pre ++ [(rt, prices, rows, is)]) s) (sim_time (run env pre s)).
 Proof. exact run_shift. Qed.
+(* the built-in dispatcher's vehicle filter (closure regenerated from dispatcher.py) never offers an off-shift driver to the solver *)
+Theorem C20_dispatcher_never_offers_off_shift_driver : forall env states mr br fleet v,
+  driver_available (v_driver v) = false -> dispatcher_valid_vehicle env states mr br fleet v = false.
+Proof. exact off_shift_driver_never_offered. Qed.
+Print Assumptions C20_dispatcher_never_offers_off_shift_driver.
+
 Print Assumptions C20_only_driver_updates_change_drivers. Print Assumptions C20_step_follows_schedule. Print Assumptions C20_run_follows_schedule.
 
 Print Assumptions C20_in_shift_meaning. Print Assumptions C20_empty_shift.
